@@ -160,9 +160,11 @@ def obligations(tier: str) -> List[dict]:
         for fi in range(len(FORMATS)):
             add(1, fi, False, 300)
             for op in (0, 1):
-                add(2, fi, False, 400, ['aligned-reference',
-                                        'commutes-checked']
-                    if (op == 1 and fi == 0) else [], i0_op=op)
+                for r0 in range(len(ROLES)):
+                    add(2, fi, False, 400, ['aligned-reference',
+                                            'commutes-checked']
+                        if (op == 1 and fi == 0 and r0 == 0) else [],
+                        i0_op=op, i0_r=r0)
         for ops in [(0, 0), (0, 1), (1, 0), (1, 1), (1, 2)]:
             add(3, 0, True, 400, i0_op=ops[0], i1_op=ops[1])
             add(3, 2, True, 400, i0_op=ops[0], i1_op=ops[1])
